@@ -9,6 +9,8 @@ import (
 	"fmt"
 	"os"
 	"sync/atomic"
+
+	jdoc "github.com/jsightapi/jsight-schema-go-library/formats/json"
 )
 
 type semCase struct {
@@ -29,6 +31,20 @@ type semMismatch struct {
 	Got      Outcome `json:"got"`
 	Fresh    *bool   `json:"fresh_ok,omitempty"` // verdict on a freshly built schema object
 	What     string  `json:"what"`
+}
+
+func hasObject(v Value) bool {
+	switch v.T {
+	case "obj":
+		return true
+	case "arr":
+		for _, it := range v.Items {
+			if hasObject(it) {
+				return true
+			}
+		}
+	}
+	return false
 }
 
 func init() {
@@ -64,6 +80,14 @@ func init() {
 		w := newNDWriter(*out)
 		defer w.Close()
 		var evals, mism, accepts, rejects, unspec, checkFail int64
+		// a second spelling of every document that has an object: properties reversed, every character of keys and strings
+		// \u-escaped, blanks and line breaks between the tokens. The expected verdict is a function of the JSON value alone.
+		alt := make([]string, len(docs))
+		for i, d := range docs {
+			if hasObject(d) && !hasDupKeys(d) {
+				alt[i] = spellDoc(d, docSpell{WS: "lines", Order: "reversed", Esc: "unicode"})
+			}
+		}
 		parallelFor(len(cases), func(ci int) {
 			c := cases[ci]
 			s, rr, err := buildSchema(c.Schema, c.Env, c.Opt, *mesh)
@@ -88,6 +112,17 @@ func init() {
 					atomic.AddInt64(&accepts, 1)
 				} else {
 					atomic.AddInt64(&rejects, 1)
+				}
+				if alt[di] != "" && got.OK == (want == 1) {
+					atomic.AddInt64(&evals, 1)
+					if g2 := guard(func() error { return s.Validate(jdoc.New("doc", alt[di])) }); g2.Kind == "panic" || g2.Kind == "foreign" || g2.OK != (want == 1) {
+						atomic.AddInt64(&mism, 1)
+						ws := "reject"
+						if want == 1 {
+							ws = "accept"
+						}
+						w.Write(semMismatch{Schema: rr.Text, Abstract: c.Schema, Env: c.Env, Opt: c.Opt, Doc: alt[di], DocAbs: docs[di], Want: ws, Got: g2, What: "verdict-respelled"})
+					}
 				}
 				if got.Kind == "panic" || got.Kind == "foreign" || got.OK != (want == 1) {
 					// once more on a freshly built schema object
